@@ -571,6 +571,8 @@ def risky_edit(rnd, spec, objs=None):
         mx = float(np.max(np.asarray(live.value["value"].values._data, dtype=float)))
         # (beyond 1e6 instances the need is only known to a few ulps: leave a relative margin so that a fresh build agrees)
         need = float(np.ceil(mx)) if mx < 1e6 else float(np.ceil(mx * (1 + 1e-9)))
+        if abs(mx - round(mx)) < max(1e-9, 1e-11 * abs(mx)):
+            need = float(round(mx)) + 1
         if need >= 2 and rnd.random() < 0.35:
             # the count itself is given one short of the need: the failing edit does not recompute the need it is compared with
             return {"op": "set", "obj": n, "attr": "fixed_nb_of_instances", "value": ["q", need - 1, "dimensionless"], "kind": "risky_" + k + "_short"}
@@ -621,4 +623,6 @@ def fix_count_edit(rnd, spec, objs):
     raw = objs[n].raw_nb_of_instances
     mx = float(np.max(np.asarray(raw.value["value"].values._data, dtype=float))) if not isinstance(raw, E.EmptyExplainableObject) else 0.0
     need = float(np.ceil(mx)) if mx < 1e6 else float(np.ceil(mx * (1 + 1e-9)))
+    if abs(mx - round(mx)) < max(1e-9, 1e-11 * abs(mx)):
+        need = float(round(mx)) + 1          # an (almost) integral need: a count equal to it would sit on the floating-point boundary
     return {"op": "set", "obj": n, "attr": "fixed_nb_of_instances", "value": ["q", need + rnd.choice([0, 1, 3, 7]), "dimensionless"], "kind": "fix_count"}
